@@ -161,6 +161,7 @@ type finding struct {
 	Race  *raceReport
 	Phase string
 	Cold  bool // the run was the first of its process and simulated before any other library use
+	Hist  *history
 }
 
 func explore(o *options, p *prepared, t0 time.Time, writeEvidence bool) int {
@@ -187,7 +188,8 @@ func explore(o *options, p *prepared, t0 time.Time, writeEvidence bool) int {
 				rr := &r.Races[i]
 				if rr.HasLib {
 					cold := phase == "cold" && rr.Run >= idxColdRace && (uint64(rr.Run)-idxColdRace)%uint64(plan.ColdCount) == 0
-					findings = append(findings, finding{Sig: rr.Sig, Build: "race", Run: uint64(rr.Run), Seed: rr.Seed, Race: rr, Phase: phase, Cold: cold})
+					findings = append(findings, finding{Sig: rr.Sig, Build: "race", Run: uint64(rr.Run), Seed: rr.Seed, Race: rr, Phase: phase, Cold: cold,
+						Hist: historyOf(r.Spec, uint64(rr.Run))})
 				} else {
 					infra = append(infra, fmt.Sprintf("[%s] race report without a library frame (harness bug):\n%s", phase, rr.Text))
 				}
@@ -306,6 +308,29 @@ func explore(o *options, p *prepared, t0 time.Time, writeEvidence bool) int {
 	fmt.Printf("c14: runs=%d steps=%d switches=%d distinct_nontrivial_schedules=%d violations=%d wall=%.1fs exit=%d\n",
 		ev.Runs, ev.Steps, ev.Switches, ev.DistinctSigs, len(fresh), ev.WallS, code)
 	return code
+}
+
+// historyOf reconstructs, from a worker's command line, which runs it executed before run.
+func historyOf(ws workerSpec, run uint64) *history {
+	h := &history{Stride: 1}
+	for i := 0; i+1 < len(ws.Args); i++ {
+		switch ws.Args[i] {
+		case "-from":
+			h.From, _ = strconv.ParseUint(ws.Args[i+1], 10, 64)
+		case "-stride":
+			h.Stride, _ = strconv.ParseUint(ws.Args[i+1], 10, 64)
+		}
+	}
+	for _, a := range ws.Args {
+		if a == "-cold-first" {
+			h.ColdFirst = true
+		}
+	}
+	if h.Stride == 0 || run < h.From {
+		return nil
+	}
+	h.Count = (run - h.From) / h.Stride
+	return h
 }
 
 func u(x uint64) string { return strconv.FormatUint(x, 10) }
